@@ -1,7 +1,7 @@
 SPECIFICATION Spec
 CONSTANTS
   Variant = "ok"
-  Fams = {"fg", "async", "stop", "tty", "zomb", "nomon"}
+  Fams = {"fg", "async", "stop", "tty", "zomb", "nomon", "mix"}
   Cfgs = {"m", "mi", "-", "i", "mo", "mio", "mb", "mib", "ml", "mil"}
   Enf = {TRUE}
 ALIAS Brief
